@@ -389,7 +389,11 @@ func (dec *xmlReader) DateTime(tag int) (time.Time, error) {
 	if err != nil {
 		return time.Time{}, err
 	}
-	return dt.Local(), dec.Next()
+	dt = dt.Local()
+	if err := checkTextDateTime(dt); err != nil {
+		return time.Time{}, err
+	}
+	return dt, dec.Next()
 }
 
 func (dec *xmlReader) Interval(tag int) (time.Duration, error) {
